@@ -34,3 +34,21 @@ def adjust_gap_straddle(inp):
         if b is not None and e0 < b <= s1:
             return True
     return False
+
+
+# ---- C13: util.adjust_events (inputs: {"events": [t,...], "labels": [...], "t_min": x|None, "t_max": x|None})
+
+@region("adjust_events_none_reach_tmin")
+def adjust_events_none_reach_tmin(inp):
+    """complement of the hypothesis of Mir.C13.adjust_events_spec / adjust_events_range_partial: t_min is given
+    and no event time is >= t_min (Mir.C13.adjust_events_none_reach: nothing is removed, t_min is not added)."""
+    a = inp["t_min"]
+    return a is not None and not any(t >= a for t in inp["events"])
+
+
+@region("adjust_events_none_below_tmax")
+def adjust_events_none_below_tmax(inp):
+    """complement of the hypothesis of Mir.C13.adjust_events_max_spec: t_min is None, t_max is given and every
+    event lies after t_max (Mir.C13.adjust_events_max_raises: IndexError from events[-1] of the empty slice)."""
+    a, b = inp["t_min"], inp["t_max"]
+    return a is None and b is not None and not any(t <= b for t in inp["events"])
